@@ -1,5 +1,5 @@
-(** Proofs_C13h5.v -- k_safe for awkward_NumpyArray_unique_strings_uint8 and awkward_NumpyArray_contiguous_copy_from_many,
-    k_spec for awkward_UnionArray_project and awkward_RegularArray_getitem_jagged_expand (models of Kernels2.v). *)
+(** Proofs_C13h5.v -- k_safe for awkward_NumpyArray_unique_strings_uint8 and k_spec for awkward_UnionArray_project
+    (models of Kernels2.v). *)
 From Coq Require Import ZArith List Bool Lia ZifyBool.
 From AwkV Require Import Base.
 From AwkKernels Require Import Kernels KLemmas Proofs_C13 Proofs_C13b Proofs_C13c Proofs_C13d.
@@ -26,7 +26,7 @@ Proof.
             0 <= start /\ 0 <= slen /\ start + slen <= zlen toptr).
   - repeat split; try lia. pose proof (zlen_nonneg toptr). lia.
   - intros i [[[[buf slen] index] counter] start] Hi (L & I0 & I1 & I2 & S0 & S1 & S2). red_st.
-    destruct (Ho i) as (O1 & O2); [lia|]. np_auto.
+    destruct (Ho i) as (O1 & O2); [lia|]. do 2 np_step.
     set (a := at_ offsets i) in *. set (b := at_ offsets (i + 1)) in *.
     assert (Ia : index <= a) by (destruct (Z.eq_dec i 0); [lia|apply I1; lia]).
     apply np_bind with (R := fun d : bool => d = false -> b - a = slen).
@@ -42,15 +42,74 @@ Proof.
       * destruct differ.
         -- apply np_bind_kfor with
              (P := fun j (s : list Z * Z * Z) => let '(buf', index', st') := s in
-                     zlen buf' = zlen toptr /\ index' = index + (j - a)).
-           ++ split; lia.
-           ++ intros j [[buf' index'] st'] Hj (L' & I'). red_st. np_auto. red_st. rewrite zlen_set_nth. split; lia.
-           ++ intros [[buf' index'] st'] (L' & I'). red_st. apply np_ret.
-              rewrite Z.max_r in I' by lia.
-              (* the loop sets start to [a] whenever it runs; otherwise a = b *)
-              admit.
+                     zlen buf' = zlen toptr /\ index' = index + (j - a) /\ (st' = a \/ st' = start /\ j = a)).
+           ++ repeat split; lia.
+           ++ intros j [[buf' index'] st'] Hj (L' & I' & St'). red_st. np_auto. red_st. rewrite zlen_set_nth. repeat split; lia.
+           ++ intros [[buf' index'] st'] (L' & I' & St'). red_st. apply np_ret.
+              rewrite Z.max_r in I', St' by lia. repeat split; lia.
         -- apply np_ret. specialize (Hd eq_refl). repeat split; lia.
       * intros [[[buf1 index1] counter1] start1] (L1 & I1' & S1' & S2'). red_st. apply np_ret.
         repeat split; try lia.
   - intros [[[[buf slen] index] counter] start] _. red_st. np_auto. auto.
-Admitted.
+Qed.
+
+Example NumpyArray_unique_strings_example :
+  NumpyArray_unique_strings [1; 2; 1; 2; 3; 3] [0; 2; 4; 5; 6] 5 [9] = KOk ([1; 2; 3; 2; 3; 3], [3]).
+Proof. vm_compute. reflexivity. Qed.
+
+(* ================================================================================================ *)
+(** * awkward_UnionArray_project: tocarry = the index entries at the positions with tag [which], in order;
+      lenout = their number *)
+Lemma set_nth_split (l : list Z) n v : (n < length l)%nat -> set_nth l n v = firstn n l ++ v :: skipn (S n) l.
+Proof.
+  revert n; induction l as [|h t IH]; intros n H; cbn [length] in H; [lia|].
+  destruct n; cbn [set_nth firstn skipn app]; auto. f_equal. apply IH. lia.
+Qed.
+Lemma set_nth_splice (l : list Z) p v : 0 <= p < zlen l -> set_nth l (Z.to_nat p) v = splice p [v] l.
+Proof.
+  intros H. unfold splice. rewrite set_nth_split by (unfold zlen in H; lia). cbn [app].
+  do 3 f_equal. unfold zlen. cbn [length]. lia.
+Qed.
+Lemma zlen_filter_le {A} (p : A -> bool) l : zlen (filter p l) <= zlen l.
+Proof. induction l; cbn [filter]; [lia|]. destruct (p a); rewrite ?zlen_cons; lia. Qed.
+
+Definition proj_sel (fromtags fromindex : list Z) (which n : Z) : list Z :=
+  map (at_ fromindex) (filter (fun i => at_ fromtags i =? which) (iota n)).
+
+Theorem UnionArray_project_spec lenout tocarry fromtags fromindex n which :
+  0 <= n -> n <= zlen fromtags -> n <= zlen fromindex -> 1 <= zlen lenout -> n <= zlen tocarry ->
+  UnionArray_project lenout tocarry fromtags fromindex n which
+  = KOk (set_nth lenout 0 (zlen (proj_sel fromtags fromindex which n)),
+         proj_sel fromtags fromindex which n ++ skipn (Z.to_nat (zlen (proj_sel fromtags fromindex which n))) tocarry).
+Proof.
+  intros H0 H1 H2 H3 H4. unfold UnionArray_project. rewrite kupd_ok by lia. cbn [kbind Z.to_nat].
+  assert (Ls : forall j, 0 <= j -> zlen (proj_sel fromtags fromindex which j) <= j).
+  { intros j Hj. unfold proj_sel. rewrite zlen_map. etransitivity; [apply zlen_filter_le|]. rewrite zlen_iota_; lia. }
+  match goal with |- kfor 0 n ?b ?s0 = _ =>
+    destruct (kfor_inv b (fun j (st : list Z * list Z) =>
+      st = (set_nth lenout 0 (zlen (proj_sel fromtags fromindex which j)), splice 0 (proj_sel fromtags fromindex which j) tocarry))
+      0 n s0) as (s' & E & P); auto end.
+  - intros j [lo tc] Hj Est. inversion Est; subst lo tc. red_st. specialize (Ls j (proj1 Hj)).
+    set (sel := proj_sel fromtags fromindex which j) in *. pose proof (zlen_nonneg sel) as Sn.
+    assert (Sj : proj_sel fromtags fromindex which (j + 1)
+                 = sel ++ (if at_ fromtags j =? which then [at_ fromindex j] else [])).
+    { unfold sel, proj_sel. rewrite iota_snoc by lia. rewrite filter_app, map_app. cbn [filter].
+      destruct (at_ fromtags j =? which); reflexivity. }
+    rewrite (kget_at fromtags) by lia. cbn [kbind]. rewrite Sj.
+    destruct (at_ fromtags j =? which).
+    + rewrite (kget_at (set_nth lenout 0 _)) by (rewrite zlen_set_nth; lia). cbn [kbind].
+      rewrite at_set_nth_0 by lia. rewrite (kget_at fromindex) by lia. cbn [kbind].
+      rewrite kupd_ok by (rewrite zlen_splice; lia). cbn [kbind].
+      rewrite kupd_ok by (rewrite zlen_set_nth; lia). cbn [kbind Z.to_nat]. rewrite set_nth_0_twice.
+      eexists; split; [reflexivity|]. f_equal.
+      * f_equal. rewrite zlen_app, zlen_cons, zlen_nil. lia.
+      * rewrite set_nth_splice by (rewrite zlen_splice; lia).
+        pose proof (splice_snoc 0 sel [at_ fromindex j] tocarry) as SS. rewrite !Z.add_0_l in SS.
+        apply SS; [lia|]. rewrite zlen_cons, zlen_nil. lia.
+    + eexists; split; [reflexivity|]. now rewrite app_nil_r.
+  - rewrite E, P. reflexivity.
+Qed.
+
+Example UnionArray_project_example :
+  UnionArray_project [9] [9; 9; 9; 9] [0; 1; 0; 1] [5; 6; 7; 8] 4 1 = KOk ([2], [6; 8; 9; 9]).
+Proof. vm_compute. reflexivity. Qed.
